@@ -411,17 +411,24 @@ impl<T> AtomicBucket<T> {
         // still be in process of writing to the tail node, or reading the data, but new callers
         // will see it as empty until another write proceeds.
         let guard = &epoch_pin();
-        #[cfg(metrics_verif)]
-        metrics::verif::point("clr.load.pre", &[]);
-        let mut block_ptr = self.tail.load(Ordering::Acquire, guard);
-        #[cfg(metrics_verif)]
-        metrics::verif::point("clr.load.post", &[block_ptr.as_raw() as i64]);
-        #[cfg(metrics_verif)]
-        if !block_ptr.is_null() {
+        // The tail can move between the load and the compare-exchange: a writer that found the tail
+        // block full installs a new tail block linked to it.  Giving up in that case would leave
+        // the whole bucket undrained for this call, so load again and retry.  The loop ends when the
+        // bucket is empty (null tail) or the exchange succeeds; every failed exchange means another
+        // thread made progress.
+        let mut block_ptr;
+        loop {
+            #[cfg(metrics_verif)]
+            metrics::verif::point("clr.load.pre", &[]);
+            block_ptr = self.tail.load(Ordering::Acquire, guard);
+            #[cfg(metrics_verif)]
+            metrics::verif::point("clr.load.post", &[block_ptr.as_raw() as i64]);
+            if block_ptr.is_null() {
+                return;
+            }
+            #[cfg(metrics_verif)]
             metrics::verif::point("clr.cas.pre", &[block_ptr.as_raw() as i64]);
-        }
-        if !block_ptr.is_null()
-            && self
+            if self
                 .tail
                 .compare_exchange(
                     block_ptr,
@@ -431,6 +438,10 @@ impl<T> AtomicBucket<T> {
                     guard,
                 )
                 .is_ok()
+            {
+                break;
+            }
+        }
         {
             #[cfg(metrics_verif)]
             metrics::verif::point("clr.cas.post", &[1]);
